@@ -197,25 +197,26 @@ def geom_models(rng, quick):
     return out
 
 def geom_case(rng, m, gid, workdir, order, npts, op=3):
-    """writes the model under workdir/g<gid>/ and returns the case line (interfaces renamed I0..)"""
+    """writes the model under workdir/g<gid>/ (meshes renamed m0.., interfaces I0..) and returns an info dict; the case
+    line is built by geom_line() once the harness has told in which order the loader keeps triangles and their vertices
+    (Mesh::load may reorient triangles; stale weights are written by POSITION, so the order matters)"""
     inames = [n for n, _ in m["interfaces"]]; ren = {n: "I%d" % k for k, n in enumerate(inames)}
+    mren = {n: "m%d" % k for k, (n, _, _) in enumerate(m["meshes"])}
     mm = dict(m)
-    mm["meshes"] = [(n, [tuple(c / GRID for c in snap(v)) for v in vs], ts) for n, vs, ts in m["meshes"]]
-    mm["interfaces"] = [(ren[n], ms) for n, ms in m["interfaces"]]
+    mm["meshes"] = [(mren[n], [tuple(c / GRID for c in snap(v)) for v in vs], ts) for n, vs, ts in m["meshes"]]
+    mm["interfaces"] = [(ren[n], [(sg, mren[mn]) for sg, mn in ms]) for n, ms in m["interfaces"]]
     doms = [(n, [(s, ren[i]) for s, i in bs]) for n, bs in m["domains"]]
     mm["domains"] = [doms[k] for k in order]
     models.write_model(mm, os.path.join(workdir, "g%d" % gid), fmt="tri")
-    # wire
     vid = {}; V = []
-    mesh_tris = {}
+    mesh_tris = []
     for n, vs, ts in mm["meshes"]:
         loc = []
         for v in vs:
             k = snap(v)
             if k not in vid: vid[k] = len(V); V.append(k)
             loc.append(vid[k])
-        mesh_tris[n] = [tuple(loc[a] for a in t) for t in ts]
-    mnames = [n for n, _, _ in mm["meshes"]]
+        mesh_tris.append([tuple(loc[a] for a in t) for t in ts])
     R = m["info"].get("outer_radius", 1.0)
     pts = []
     for _ in range(npts):
@@ -224,18 +225,40 @@ def geom_case(rng, m, gid, workdir, order, npts, op=3):
         elif c < 0.8: r = R * rng.uniform(0.5, 0.9)
         else: r = R * rng.uniform(0.05, 0.5)
         pts.append(snap(tuple(r * x for x in d)))
-    w = [op, gid, GRID, len(pts)] + [c for p in pts for c in p] + [len(V)] + [c for v in V for c in v]
-    w += [len(mnames)]
-    for n in mnames:
-        w += [len(mesh_tris[n])] + [a for t in mesh_tris[n] for a in t]
-    w += [len(mm["interfaces"])]
-    for n, ms in mm["interfaces"]:
-        w += [len(ms)] + [mnames.index(mn) for _, mn in ms]
-    w += [len(mm["domains"])]
-    for n, bs in mm["domains"]:
-        sg = m["cond"][n]
-        w += [0 if sg == 0.0 else 1, len(bs)] + [int(i[1:]) for _, i in bs]
-    return "c09 " + " ".join(str(x) for x in w), dict(V=V, pts=pts, den=GRID)
+    ifs = [[int(mn[1:]) for _, mn in ms] for n, ms in mm["interfaces"]]
+    dms = [(0 if m["cond"][n] == 0.0 else 1, [int(i[1:]) for _, i in bs]) for n, bs in mm["domains"]]
+    return dict(V=V, pts=pts, den=GRID, gid=gid, op=op, mesh_tris=mesh_tris, ifs=ifs, doms=dms)
+
+def geom_probe_line(info):
+    return "c09 8 %d %d %d %s" % (info["gid"], GRID, len(info["V"]), " ".join(str(c) for v in info["V"] for c in v))
+
+def geom_line(info, loaded=None):
+    """case line; `loaded` = per-mesh triangle lists (wire vertex ids) as the loader keeps them"""
+    mt = loaded if loaded is not None else info["mesh_tris"]
+    info["mesh_tris"] = [[tuple(t) for t in ts] for ts in mt]
+    w = [info["op"], info["gid"], GRID, len(info["pts"])] + [c for p in info["pts"] for c in p] + [len(info["V"])] + [c for v in info["V"] for c in v]
+    w += [len(mt)]
+    for ts in mt: w += [len(ts)] + [a for t in ts for a in t]
+    w += [len(info["ifs"])]
+    for ms in info["ifs"]: w += [len(ms)] + ms
+    w += [len(info["doms"])]
+    for sg, bs in info["doms"]: w += [sg, len(bs)] + bs
+    return "c09 " + " ".join(str(x) for x in w)
+
+def geom_last_candidates(info, e):
+    """rows the code may legitimately write for electrode e when its weights are stale: weights of every triangle of the
+    LAST zero-conductivity boundary at exactly the minimal distance within that boundary"""
+    last = None
+    for sg, bs in info["doms"]:
+        if sg == 0 and bs: last = bs[-1]
+    if last is None: return []
+    tris = [t for mi in info["ifs"][last] for t in info["mesh_tris"][mi]]
+    V = info["V"]; pz = list(info["pts"][e])
+    lines = ["c09 1 %d %s" % (GRID, " ".join(str(x) for x in pz + list(V[t[0]]) + list(V[t[1]]) + list(V[t[2]]))) for t in tris]
+    res = [r for r in (parse_tri_model(l) for l in core.run_model(lines)) if r["st"] == 0]
+    if not res: return []
+    dmin = min(r["d2"] for r in res)
+    return [r["al"] for r in res if r["d2"] == dmin]
 
 def parse_geom_model(line, npts):
     w = [int(x) for x in line.split()]
@@ -263,9 +286,12 @@ def parse_geom_impl(line, npts):
         out.append(dict(iid=iid, tri=tri, al=al, d=d, row=row))
     return out
 
-def compare_geom(model, impl, info, internal=True):
-    """returns list of (electrode index, message)"""
-    bad = []
+def compare_geom(model, impl, info):
+    """model vs implementation per electrode.  Returns (bad, relfail):
+    bad     = [(electrode, message)] correspondence mismatches and structural faults of the implementation's row;
+    relfail = [(electrode, reconstructed distance, returned distance)] where the property's own relation fails on the
+              implementation: the point reconstructed from the row is not at the returned distance."""
+    bad = []; relfail = []
     for e, (m, i) in enumerate(zip(model, impl)):
         if "err" in m: bad.append((e, "model error %d" % m["err"])); continue
         msgs = []
@@ -275,18 +301,102 @@ def compare_geom(model, impl, info, internal=True):
         irow = {c: v for c, v in i["row"].items() if abs(v) > 1e-13}
         if set(mrow) != set(irow) or any(not fclose(mrow[c], irow[c]) for c in mrow):
             msgs.append("row %s vs %s" % ({c: float(v) for c, v in sorted(mrow.items())}, dict(sorted(irow.items()))))
-        if not internal:
-            if msgs: bad.append((e, "; ".join(msgs)))
-            continue
-        # the implementation's own row must sit on the triangle it returned, with that triangle's alphas
-        if len(i["row"]) > 3 or not set(i["row"]).issubset(set(i["tri"])): msgs.append("row support %s not within returned triangle %s" % (sorted(i["row"]), i["tri"]))
-        if abs(sum(i["row"].values()) - 1.0) > 1e-12: msgs.append("row sums to %.17g" % sum(i["row"].values()))
-        # property relation: the point reconstructed from the row is at the returned distance
-        V = info["V"]; den = info["den"]; p = tuple(Fr(c, den) for c in info["pts"][e])
-        h = tuple(sum(Fr(v) * Fr(V[c][k], den) for c, v in i["row"].items()) for k in range(3))
-        if abs(math.sqrt(float(dist2(p, h))) - i["d"]) > 1e-9: msgs.append("reconstructed point is %.6g away, returned distance %.6g" % (math.sqrt(float(dist2(p, h))), i["d"]))
+        if "tri" in i:
+            if len(i["row"]) > 3 or not set(i["row"]).issubset(set(i["tri"])): msgs.append("row support %s not within returned triangle %s" % (sorted(i["row"]), i["tri"]))
+            if abs(sum(i["row"].values()) - 1.0) > 1e-12: msgs.append("row sums to %.17g" % sum(i["row"].values()))
+            V = info["V"]; den = info["den"]; p = tuple(Fr(c, den) for c in info["pts"][e])
+            h = tuple(sum(Fr(v) * Fr(V[c][k], den) for c, v in i["row"].items()) for k in range(3))
+            rd = math.sqrt(float(dist2(p, h)))
+            if abs(rd - i["d"]) > 1e-9: relfail.append((e, rd, i["d"]))
         if msgs: bad.append((e, "; ".join(msgs)))
-    return bad
+    return bad, relfail
+
+def rows_differ(ma, mb):
+    ra = {c: v for c, v in ma["row"].items() if v != 0}; rb = {c: v for c, v in mb["row"].items() if v != 0}
+    return ra != rb
+
+# ------------------------------------------------------------------ soup-level geometry (ops 6/7): dist_point_geom on domains built in memory
+WITNESS12 = "c09 6 4 1 1 4 6 0 0 0 4 0 0 0 4 0 0 0 -20 16 0 -20 0 4 -20 2 1 0 1 2 1 3 4 5 2 1 0 1 1 2 0 1 0 0 1 1"   # Coq witness w12
+SIG12 = "dist_point_geom stale alphas: domains {(0,0,0)(1,0,0)(0,1,0)} then {(0,0,-5)(4,0,-5)(0,1,-5)}, both sigma=0, p=(1/4,1/4,1)"
+
+def gen_soup_geom(rng):
+    den = rng.choice([1, 2, 4]); R = 8 * den
+    nv = rng.randint(6, 12); V = [rnd_pt(rng, R) for _ in range(nv)]
+    nm = rng.randint(2, 4); meshes = [[rng.sample(range(nv), 3) for _ in range(rng.randint(1, 3))] for _ in range(nm)]
+    ni = rng.randint(2, 4); ifs = [rng.sample(range(nm), rng.randint(1, min(2, nm))) for _ in range(ni)]
+    nd = rng.randint(2, 4); doms = []
+    for k in range(nd):
+        doms.append((0 if rng.random() < 0.65 else rng.choice([1, 2]), rng.sample(range(ni), rng.randint(1, min(2, ni)))))
+    if all(sg != 0 for sg, _ in doms): doms[rng.randrange(nd)] = (0, doms[0][1])
+    rng.shuffle(doms)
+    p = rnd_pt(rng, R + R // 2)
+    w = [6, den] + p + [nv] + [c for v in V for c in v] + [nm]
+    for ts in meshes: w += [len(ts)] + [a for t in ts for a in t]
+    w += [ni]
+    for ms in ifs: w += [len(ms)] + ms
+    w += [nd]
+    for sg, bs in doms: w += [sg, len(bs)] + bs
+    return "c09 " + " ".join(map(str, w)), dict(V=V, den=den, p=p)
+
+def parse_soup(case):
+    w = [int(x) for x in case.split()[1:]]
+    den = w[1]; p = tuple(Fr(c, den) for c in w[2:5]); nv = w[5]
+    V = [tuple(Fr(c, den) for c in w[6 + 3 * k:9 + 3 * k]) for k in range(nv)]
+    return p, V
+
+def last_boundary_candidates(case):
+    """weights the code may legitimately hand back: those of every triangle of the LAST zero-conductivity boundary
+    scanned that is at exactly the minimal distance within that boundary (the doubles may order exact ties either way)"""
+    w = [int(x) for x in case.split()[1:]]
+    den = w[1]; pz = w[2:5]; nv = w[5]; k = 6; Vz = [w[k + 3 * j:k + 3 * j + 3] for j in range(nv)]; k += 3 * nv
+    nm = w[k]; k += 1; meshes = []
+    for _ in range(nm):
+        nt = w[k]; k += 1; meshes.append([w[k + 3 * j:k + 3 * j + 3] for j in range(nt)]); k += 3 * nt
+    ni = w[k]; k += 1; ifs = []
+    for _ in range(ni):
+        n = w[k]; k += 1; ifs.append(w[k:k + n]); k += n
+    nd = w[k]; k += 1; last = None
+    for _ in range(nd):
+        sg, nb = w[k], w[k + 1]; bs = w[k + 2:k + 2 + nb]; k += 2 + nb
+        if sg == 0 and bs: last = bs[-1]
+    if last is None: return []
+    tris = [t for mi in ifs[last] for t in meshes[mi]]
+    lines = ["c09 1 %d %s" % (den, " ".join(str(x) for x in pz + Vz[t[0]] + Vz[t[1]] + Vz[t[2]])) for t in tris]
+    res = [parse_tri_model(l) for l in core.run_model(lines)]
+    res = [r for r in res if r["st"] == 0]
+    if not res: return []
+    dmin = min(r["d2"] for r in res)
+    return [r["al"] for r in res if r["d2"] == dmin]
+
+def compare_soup_geom(case, mo, io, stats):
+    """returns (mismatch message or None, relation_failed, model dict)"""
+    m = [int(x) for x in mo.split()]; z, f = core.fparse(io)
+    if z is None: return "harness crashed", False, None
+    if m[0] != 0 or z[0] != 0:
+        stats["errors"] += 1
+        return (None if m[0] == z[0] else "dist_point_geom: status model %d implementation %d" % (m[0], z[0])), False, None
+    iid, tri = m[1], m[2:5]; al = [Q(m[5 + 2 * k], m[6 + 2 * k]) for k in range(3)]; d2 = Q(m[11], m[12])
+    p, V = parse_soup(case)
+    bad = []
+    same_tri = (tri == z[2:5])
+    if iid != z[1] or not same_tri:
+        ob = closest_bary(p, *[V[a] for a in z[2:5]]); od2 = dist2(p, recon(ob, *[V[a] for a in z[2:5]]))
+        if od2 == d2 and tri != z[2:5]:      # another triangle (or the same one with its vertices in another order) at exactly the same distance: the doubles may order them either way
+            stats["rounding_ties"] = stats.get("rounding_ties", 0) + 1; return None, False, None
+        bad.append("returned interface/triangle I%d %s vs I%d %s" % (iid, tri, z[1], z[2:5]))
+    else:
+        for k in range(3):
+            if not fclose(al[k], f[k]): bad.append("alpha%d %s vs %.17g" % (k, al[k], f[k]))
+        if bad:
+            cands = last_boundary_candidates(case)
+            if len(cands) > 1 and any(all(fclose(a[k], f[k]) for k in range(3)) for a in cands):
+                stats["rounding_ties"] = stats.get("rounding_ties", 0) + 1; return None, False, None
+    if not fclose(d2, f[3] ** 2, 4e-12): bad.append("distance^2 %s vs %.17g" % (float(d2), f[3] ** 2))
+    if bad: return "dist_point_geom: " + "; ".join(bad), False, None
+    # property relation on the implementation: the returned weights reconstruct a point of the returned triangle at the returned distance
+    h = recon([Fr(x) for x in f[0:3]], *[V[a] for a in z[2:5]])
+    rel = abs(math.sqrt(float(dist2(p, h))) - f[3]) > 1e-9
+    return None, rel, dict(iid=iid, tri=tri, al=al, d2=d2, rec=math.sqrt(float(dist2(p, h))), d=f[3])
 
 # ------------------------------------------------------------------ main
 def compare_triangle(ck, case, kind, mo, io, stats):
@@ -343,6 +453,9 @@ def main(replay=None):
     else:
         for _ in range(800 if quick else 8000):
             c, info = gen_interface_case(ck.rng); iinfo[len(cases)] = info; cases.append(c); kinds.append("interface")
+    if not replay:
+        for _ in range(600 if quick else 6000):
+            c, info = gen_soup_geom(ck.rng); cases.append(c); kinds.append("soup-geometry")
     # geometry-level cases: whole models in several declaration orders
     ginfo = {}
     if replay:
@@ -359,12 +472,22 @@ def main(replay=None):
             ck.rng.shuffle(orders)
             orders = [tuple(range(nd))] + orders[:(3 if quick else 23)]
             for order in orders:
-                c, info = geom_case(ck.rng, m, gid, ck.workdir, order, 10 if quick else 30)
+                info = geom_case(ck.rng, m, gid, ck.workdir, order, 10 if quick else 30)
                 info["name"] = name + " order=" + "".join(map(str, order))
-                cases.append(c); kinds.append("geom:" + name); ginfo[gid] = info; gid += 1
+                ginfo[gid] = info; gid += 1
+        # first pass: ask the loader for the triangle lists it keeps (order of triangles and of their vertices)
+        probes = [geom_probe_line(ginfo[g]) for g in sorted(ginfo)]
+        rc0, pout, _ = core.run_harness(hb, probes, ck.workdir, tag="probe")
+        for g, line in zip(sorted(ginfo), pout):
+            z, _f = core.fparse(line); loaded = None
+            if z is not None and z[0] == 0:
+                loaded = []; k = 2
+                for _ in range(z[1]):
+                    nt = z[k]; k += 1; loaded.append([tuple(z[k + 3 * j:k + 3 * j + 3]) for j in range(nt)]); k += 3 * nt
+            cases.append(geom_line(ginfo[g], loaded)); kinds.append("geom:" + ginfo[g]["name"].split(" ")[0])
     mo = core.run_model(cases)
     rc, io, err = core.run_harness(hb, cases, ck.workdir)
-    stats = dict(errors=0, fragile_boundary=0, branch={}, not_nearest=[])
+    stats = dict(errors=0, fragile_boundary=0, branch={}, not_nearest=[], stale=[])
     dist = {}; mism = 0
     for cn, (c, k, m, i) in enumerate(zip(cases, kinds, mo, io)):
         dist[k] = dist.get(k, 0) + 1
@@ -379,6 +502,19 @@ def main(replay=None):
         elif op == 2:
             msg = compare_interface(c, iinfo[cn], m, i, stats)
             sig = "dist_point_interface: model and implementation differ"
+        elif op in (6, 7):
+            sig = "dist_point_geom (in-memory domains): model and implementation differ"
+            msg, rel, md = compare_soup_geom(c, m, i, stats)
+            stats["soup_geom"] = stats.get("soup_geom", 0) + 1
+            if msg is None and rel:
+                # model = implementation and the property relation fails: is it the stale-alphas mechanism?
+                rm = [int(x) for x in core.run_model([c.replace("c09 6 ", "c09 7 ", 1)])[0].split()]
+                ral = [Q(rm[5 + 2 * k], rm[6 + 2 * k]) for k in range(3)] if rm[0] == 0 else None
+                if ral is not None and rm[1:5] == [md["iid"]] + md["tri"] and ral != md["al"]:
+                    stats["stale"].append((c, md["rec"], md["d"]))
+                else:
+                    msg = "dist_point_geom: reconstructed point is %.6g away for a returned distance %.6g, and this is not the stale-weights mechanism (the variant keeping the minimum's weights gives the same weights)" % (md["rec"], md["d"])
+                    sig = "dist_point_geom: weights do not reconstruct a point at the returned distance"
         elif op in (3, 4):
             gid = int(c.split()[2]); info = ginfo[gid]; npts = len(info["pts"])
             mm = parse_geom_model(m, npts); ii = parse_geom_impl(i, npts)
@@ -386,17 +522,39 @@ def main(replay=None):
             if mm is None or ii is None:
                 msg = "geometry case failed: model `%s` implementation `%s`" % (m[:80], i[:80])
             else:
-                bad = compare_geom(mm, ii, info)
+                bad, relfail = compare_geom(mm, ii, info)
                 stats["geom_electrodes"] = stats.get("geom_electrodes", 0) + npts
+                # a row that differs only because the last boundary has several triangles at exactly the same distance
+                keep = []
+                for e, t in bad:
+                    ok = False
+                    if t.startswith("row ") and ";" not in t:
+                        same = mm[e]["tri"] == ii[e]["tri"]
+                        if not same:     # another triangle at exactly the same distance was returned (stale weights are written by position)
+                            Vq = [tuple(Fr(c, info["den"]) for c in v) for v in info["V"]]; pq = tuple(Fr(c, info["den"]) for c in info["pts"][e])
+                            tq = [Vq[a] for a in ii[e]["tri"]]
+                            same = dist2(pq, recon(closest_bary(pq, *tq), *tq)) == mm[e]["d2"]
+                        if same:
+                            for al in [mm[e]["al"]] + geom_last_candidates(info, e):
+                                if all(fclose(al[j], ii[e]["al"][j]) for j in range(3)): ok = True
+                    if ok: stats["rounding_ties"] = stats.get("rounding_ties", 0) + 1
+                    else: keep.append((e, t))
+                bad = keep
                 msg = None
+                other = core.run_model([c.replace("c09 3 ", "c09 4 ", 1)])[0] if (bad or relfail) else None
+                omm = parse_geom_model(other, npts) if other else None
                 if bad:
                     e, t = bad[0]
                     msg = "%s, electrode %d at %s/64: %s (%d of %d electrodes differ)" % (info.get("name"), e, info["pts"][e], t, len(bad), npts)
-                    # is it the pinned behaviour (alphas of the last interface scanned)?
-                    pm = core.run_model([c.replace("c09 3 ", "c09 4 ", 1)])[0]
-                    pmm = parse_geom_model(pm, npts)
-                    if pmm is not None and not compare_geom(pmm, ii, info, internal=False):
-                        msg += " -- the implementation agrees with the pinned model: alphas of the last interface scanned (DESIGN 4 row 12)"
+                    if omm is not None and not compare_geom(omm, [dict(iid=x["iid"], d=x["d"], row=x["row"]) for x in ii], info)[0]:
+                        msg += " -- the implementation agrees with the variant that keeps the weights of the minimum: dist_point_geom was repaired, the model (which follows the code as it was) and findings.d must follow"
+                elif relfail:
+                    for e, rd, d in relfail:
+                        if omm is not None and "err" not in omm[e] and rows_differ(omm[e], mm[e]) and omm[e]["iid"] == mm[e]["iid"]:
+                            stats["stale"].append(("%s electrode %s/64" % (info.get("name"), info["pts"][e]), rd, d))
+                        else:
+                            msg = "%s, electrode %d at %s/64: the row reconstructs a point %.6g away for a returned distance %.6g, and this is not the stale-weights mechanism" % (info.get("name"), e, info["pts"][e], rd, d)
+                            sig = "Head2EEGMat: row does not reconstruct a point at the returned distance"
         else:
             continue
         if msg:
@@ -422,13 +580,23 @@ def main(replay=None):
         ck.violation("dpc_nearest: A=(0,0,0) B=(4,0,0) C=(-3,1,0) p=(2.6,-1,0)",
                      "dist_point_triangle returns a point at squared distance %.6g where the triangle has a point at %.6g (obtuse corner)" % (w13[0][2], w13[0][1]),
                      dict(kind="refutation-replay", cases=[WITNESS13]))
+    # refutation replay / known finding: weights of the last boundary scanned (theorem geom_alphas_belong_to_returned_triangle_refuted).
+    # Raised once, keyed by the minimal witness; every other instance above was admitted only because the model of the
+    # code as it is reproduces the implementation exactly AND the variant keeping the minimum's weights differs.
+    w12 = [x for x in stats["stale"] if x[0] == WITNESS12]
+    if w12:
+        ck.violation(SIG12, "dist_point_geom hands back weights that reconstruct a point %.6g away for a returned distance %.6g (weights of the last boundary scanned, not of the nearest triangle); %d further generated instances of the same mechanism this run" % (w12[0][1], w12[0][2], len(stats["stale"]) - 1),
+                     dict(kind="refutation-replay", cases=[WITNESS12]))
+    elif stats["stale"] and not replay:
+        ck.violation("dist_point_geom stale alphas without the witness", "stale-weights instances were seen (%d) but the minimal witness did not reproduce: corpus line missing or model out of date" % len(stats["stale"]),
+                     dict(kind="refutation-replay", cases=[WITNESS12]), found_input=False)
     ck.cov.update(evaluations=len(cases), distinct_nontrivial=len(set(cases)),
                   rule="distinct case lines; triangle cases are aimed at the ten leaves of dpc (interior / 3 edges / vertices via t<0 and t>1), obtuse and thin triangles, points on the surface, degenerate triangles (om_error)",
                   samples=cases[len(cases) // 2:len(cases) // 2 + 3], op_distribution=dist,
                   branch_distribution=stats["branch"], error_outcomes=stats["errors"],
                   fragile_boundary_cases=stats["fragile_boundary"],
                   not_nearest_cases_all_in_refuted_region=len(stats["not_nearest"]),
-                  correspondence_mismatches=mism, geometry_electrodes=stats.get('geom_electrodes', 0), interface_rounding_ties=stats.get('rounding_ties', 0), traces_validated_against_impl=len(cases))
+                  correspondence_mismatches=mism, geometry_electrodes=stats.get('geom_electrodes', 0), soup_geometry_cases=stats.get('soup_geom', 0), stale_weight_instances_explained_by_model=len(stats['stale']), interface_rounding_ties=stats.get('rounding_ties', 0), traces_validated_against_impl=len(cases))
     ck.cov["trusted_base"] += ["hand-written Gallina model coq/Geom/{Danielsson,SensorsModel}.v tied by differential runs (harness/h_c09.cpp vs extracted extract/omm, exact rational instance)",
                                "extraction: ExtrOcamlBasic only", "Python Fraction closest-point oracle (Ericson's Voronoi classification) in checks/c09.py"]
     ck.assumptions += ["distances are compared squared in the model (sqrt monotone)",
